@@ -360,6 +360,19 @@ class ManifestState:
     POST_SIGNED_DATA = 4
 
 
+def _iter_text_lines(f):
+    """
+    Iterate over lines of text file @f, reporting undecodable data
+    as a syntax error (a file that is not valid UTF-8 text is not
+    a Manifest).
+    """
+    try:
+        yield from f
+    except UnicodeDecodeError as e:
+        raise ManifestSyntaxError(
+            f'Manifest is not valid UTF-8 text: {e}')
+
+
 class ManifestFile:
     """
     A class encapsulating a single Manifest file. It supports reading
@@ -404,7 +417,7 @@ class ManifestFile:
         openpgp_data = ''
         not_dash_escaped = False
 
-        for line in f:
+        for line in _iter_text_lines(f):
             # NUL is never valid in a Manifest, and GnuPG treats trailing
             # NULs as insignificant whitespace when verifying
             if '\0' in line:
